@@ -1827,7 +1827,12 @@ func (dsc *dataStoreCommand) lremove(keyName string, element string, count int) 
 			item = next
 		}
 	} else {
-		count = -count
+		if count == math.MinInt {
+			// the smallest integer has no positive counterpart: every match
+			count = math.MaxInt
+		} else {
+			count = -count
+		}
 		for item := list.tail; item != nil && count > removed; {
 			next := item.prev
 			if string(item.element) == element {
